@@ -21,7 +21,7 @@ from . import common
 
 ID = 'C19'
 LEVEL = 'exploration'
-QUOTA = {'quick': 200, 'thorough': 4000}
+QUOTA = {'quick': 170, 'thorough': 4000}
 BUDGET = {'quick': 120, 'thorough': 1200}
 RULE = ('scenario = history of up to 6 stage runs (mapping, statistics, reference markers, p-value mask, markers from '
         'p-mask, query markers, validation) over one generated world, sharing scratch and output directories, each '
